@@ -285,7 +285,7 @@ def native_replay(scratch, group, harness, values, timeout=1800):
         if keep:
             out.append(line)
     open(cargo, "w").write("\n".join(out) + "\n")
-    env = offline_env({"CARGO_TARGET_DIR": REPLAY_TARGET, "RUSTFLAGS": "--cfg verif_replay -A warnings"})
+    env = offline_env({"CARGO_TARGET_DIR": REPLAY_TARGET, "RUSTFLAGS": "--cfg verif_replay -A warnings -C overflow-checks=on"})
     for h in group.pre_hooks:
         HOOKS[h](scratch, env)
     with target_lock("replay"):
